@@ -29,9 +29,14 @@ func init() {
 
 var errC13Other = errors.New("datasource: some other failure")
 
+// c13DS hands out the history it holds, the same slice every time, like osm.HistoryDatasource does: a lookup that
+// rearranges the slice it was given changes what the next lookup of that element sees.
 type c13DS struct {
 	hist map[string][]int // versions
 	bad  map[string]bool
+	ns   map[string]osm.Nodes
+	ws   map[string]osm.Ways
+	rs   map[string]osm.Relations
 }
 
 func (d *c13DS) key(k string, id int64) string { return k + ":" + strconv.FormatInt(id, 10) }
@@ -44,10 +49,17 @@ func (d *c13DS) NodeHistory(ctx context.Context, id osm.NodeID) (osm.Nodes, erro
 	if !ok {
 		return nil, errC13NotFound
 	}
+	if out, ok := d.ns[k]; ok {
+		return out, nil
+	}
 	out := osm.Nodes{}
 	for i, v := range vs {
 		out = append(out, &osm.Node{ID: id, Version: v, ChangesetID: osm.ChangesetID(i), Visible: true})
 	}
+	if d.ns == nil {
+		d.ns = map[string]osm.Nodes{}
+	}
+	d.ns[k] = out
 	return out, nil
 }
 func (d *c13DS) WayHistory(ctx context.Context, id osm.WayID) (osm.Ways, error) {
@@ -59,10 +71,17 @@ func (d *c13DS) WayHistory(ctx context.Context, id osm.WayID) (osm.Ways, error) 
 	if !ok {
 		return nil, errC13NotFound
 	}
+	if out, ok := d.ws[k]; ok {
+		return out, nil
+	}
 	out := osm.Ways{}
 	for i, v := range vs {
 		out = append(out, &osm.Way{ID: id, Version: v, ChangesetID: osm.ChangesetID(i), Visible: true})
 	}
+	if d.ws == nil {
+		d.ws = map[string]osm.Ways{}
+	}
+	d.ws[k] = out
 	return out, nil
 }
 func (d *c13DS) RelationHistory(ctx context.Context, id osm.RelationID) (osm.Relations, error) {
@@ -74,10 +93,17 @@ func (d *c13DS) RelationHistory(ctx context.Context, id osm.RelationID) (osm.Rel
 	if !ok {
 		return nil, errC13NotFound
 	}
+	if out, ok := d.rs[k]; ok {
+		return out, nil
+	}
 	out := osm.Relations{}
 	for i, v := range vs {
 		out = append(out, &osm.Relation{ID: id, Version: v, ChangesetID: osm.ChangesetID(i), Visible: true})
 	}
+	if d.rs == nil {
+		d.rs = map[string]osm.Relations{}
+	}
+	d.rs[k] = out
 	return out, nil
 }
 
